@@ -26,7 +26,7 @@ type lockCore struct {
 	holderW  *Task
 	acqPC    uintptr // micro mode: where the current write holder took the lock
 	holdersR map[*Task]int
-	holderG  uintptr // free mode: goroutine holding the write lock
+	holderG  uintptr         // free mode: goroutine holding the write lock
 	readersG map[uintptr]int // free mode: goroutines holding read locks
 }
 
@@ -363,26 +363,84 @@ func (l *lockCore) runlock() {
 // Mutex replaces sync.Mutex.
 type Mutex struct{ c lockCore }
 
-func (m *Mutex) Lock()   { m.c.lock("Lock") }
-func (m *Mutex) Unlock() { m.c.unlock() }
-func (m *Mutex) TryLock() bool {
-	m.c.mu.Lock()
-	defer m.c.mu.Unlock()
-	if m.c.w {
+func (m *Mutex) Lock()         { m.c.lock("Lock") }
+func (m *Mutex) Unlock()       { m.c.unlock() }
+func (m *Mutex) TryLock() bool { return m.c.tryLock() }
+
+// tryLock / tryRLock: a scheduling point like Lock (the others may run first), then the attempt;
+// like sync's, a try for reading fails while a writer holds the lock or waits for it.
+func (l *lockCore) tryLock() bool {
+	t := taskFor()
+	pc := sitePC(4)
+	if t != nil {
+		l.mu.Lock()
+		l.init()
+		id := l.id
+		l.mu.Unlock()
+		t.yield("TryLock", id, pc)
+		if t.isExiting() {
+			return false
+		}
+	}
+	l.mu.Lock()
+	defer l.mu.Unlock()
+	l.init()
+	if l.w || l.r > 0 {
 		return false
 	}
-	m.c.w = true
-	m.c.holderW = curTaskNoLock()
+	l.w = true
+	if t != nil {
+		l.holderW = t
+		l.acqPC = pc
+	} else {
+		l.holderG = getg()
+	}
+	return true
+}
+
+func (l *lockCore) tryRLock() bool {
+	t := taskFor()
+	pc := sitePC(4)
+	if t != nil {
+		l.mu.Lock()
+		l.init()
+		id := l.id
+		l.mu.Unlock()
+		t.yield("TryRLock", id, pc)
+		if t.isExiting() {
+			return false
+		}
+	}
+	l.mu.Lock()
+	defer l.mu.Unlock()
+	l.init()
+	if l.w || l.pendingW > 0 {
+		return false
+	}
+	l.r++
+	if t != nil {
+		if l.holdersR == nil {
+			l.holdersR = map[*Task]int{}
+		}
+		l.holdersR[t]++
+	} else {
+		if l.readersG == nil {
+			l.readersG = map[uintptr]int{}
+		}
+		l.readersG[getg()]++
+	}
 	return true
 }
 
 // RWMutex replaces sync.RWMutex.
 type RWMutex struct{ c lockCore }
 
-func (m *RWMutex) Lock()    { m.c.lock("Lock") }
-func (m *RWMutex) Unlock()  { m.c.unlock() }
-func (m *RWMutex) RLock()   { m.c.rlock() }
-func (m *RWMutex) RUnlock() { m.c.runlock() }
+func (m *RWMutex) Lock()          { m.c.lock("Lock") }
+func (m *RWMutex) Unlock()        { m.c.unlock() }
+func (m *RWMutex) RLock()         { m.c.rlock() }
+func (m *RWMutex) RUnlock()       { m.c.runlock() }
+func (m *RWMutex) TryLock() bool  { return m.c.tryLock() }
+func (m *RWMutex) TryRLock() bool { return m.c.tryRLock() }
 
 // RLocker mirrors sync.RWMutex.RLocker.
 func (m *RWMutex) RLocker() sync.Locker { return (*rlocker)(m) }
@@ -719,7 +777,6 @@ func (m *Map) Clear() {
 	m.m = nil
 	m.order = nil
 }
-
 
 // SortedKeys returns the keys of m in ascending order. Substituted for `range m` over maps
 // in Helios (Go randomises map iteration order; it is the one source of randomness inside
